@@ -195,3 +195,11 @@ mod tests {
     assert_eq!(timer.get_counter(), 200);
   }
 }
+
+#[cfg(gb_dynarec_verif)]
+impl Timer {
+  /// The full 16-bit divider, of which DIV shows the upper half
+  pub fn verif_cycle_count(&self) -> u32 {
+    self.cycle_count
+  }
+}
